@@ -116,18 +116,20 @@ theorem C05_underreplicated_no_trash (hok : BalanceOK env classes sorter mounts 
   rw [e, htr.2.1] at hw
   cases hw
 
-/-- …and that test is sound for the physical reading when mounts are pairwise apart: a class whose
-replication over distinct devices is below desired blocks every trash. (False with a device
+/-- …and that test is sound for the physical reading when no device is mounted twice: a class
+whose replication over distinct devices is below desired blocks every trash. (False with a device
 mounted on two servers: F1.) -/
 theorem C05_underreplicated_sound (hok : BalanceOK env classes sorter mounts reps)
-    (hap : mounts.Pairwise Apart) (c : Class) (hc : c ∈ classes) (hd : env.desired c ≠ 0)
+    (hid : mounts.Pairwise (fun a b => a.id ≠ b.id)) (hdev : mounts.Pairwise (fun a b => a.dev = b.dev → a.dev = 0))
+    (c : Class) (hc : c ∈ classes) (hd : env.desired c ≠ 0)
     (hu : physRepl c (balanceBlock env classes sorter mounts reps).heldBefore < env.desired c) :
     ∀ p ∈ (balanceBlock env classes sorter mounts reps).changes, ∀ t, p.2 ≠ .trash t := by
   apply C05_underreplicated_no_trash env classes sorter mounts reps hok c hc hd
-  have hap0 : ((initSlots mounts reps).map (·.mnt)).Pairwise Apart := by rw [initSlots_mnt]; exact hap
+  have hap : mounts.Pairwise DevApart := (hid.and hdev).imp (fun {a b} h => ⟨h.1, h.2⟩)
+  have hap0 : ((initSlots mounts reps).map (·.mnt)).Pairwise DevApart := by rw [initSlots_mnt]; exact hap
   have hrel := runClasses_coreRel env sorter classes _ hok
   have hrelF := (coreRel_finalWant (balanceBlock env classes sorter mounts reps).final).trans hrel
-  have hapF := apart_pairwise_of_perm (coreRel_mnt_perm hrelF) hap0
+  have hapF := devApart_pairwise_of_perm (coreRel_mnt_perm hrelF) hap0
   have e := physRepl_before env reps c _ (balanceBlock env classes sorter mounts reps).final hapF
   have e' : physRepl c (balanceBlock env classes sorter mounts reps).heldBefore =
       ssum (haveTerm c) (finalWant (balanceBlock env classes sorter mounts reps).final) := e
@@ -137,11 +139,11 @@ theorem C05_underreplicated_sound (hok : BalanceOK env classes sorter mounts rep
 /-- non-vacuity: desired 3 with two replicas (one badly placed and old) — nothing is trashed -/
 example :
     let env := wEnv (fun c => if c = 0 then 3 else 0)
-    BalanceOK env [0] (wSorter env) okMounts okReps ∧ okMounts.Pairwise Apart ∧
+    BalanceOK env [0] (wSorter env) okMounts okReps ∧ okMounts.Pairwise DevApart ∧
     physRepl 0 (balanceBlock env [0] (wSorter env) okMounts okReps).heldBefore = 3 ∧
     BalanceOK env [0] (wSorter env) okMounts [⟨2, 2, 900⟩, ⟨3, 3, 800⟩] ∧
     physRepl 0 (balanceBlock env [0] (wSorter env) okMounts [⟨2, 2, 900⟩, ⟨3, 3, 800⟩]).heldBefore = 2 := by
-  refine ⟨?_, by unfold Apart; decide, by decide, ?_, by decide⟩ <;>
+  refine ⟨?_, by unfold DevApart; decide, by decide, ?_, by decide⟩ <;>
   · unfold BalanceOK; simp only [RunOK]; decide
 
 /-! ## pulls -/
